@@ -236,6 +236,9 @@ def _cases():
         [(b'C', b'C'), (b'E', b'A'), (b'C', b'D'), (b'F', b'B')],
         [(b'U', b'A'), (b' ',), (b'S', b'S'), (b'R', b'B'), (b'S', b'T'), (b'D', b'C')],
         [(b'E', b'A'), (b'N',), (b'F', b'B'), (b'B',), (b'G', b'C'), (b'H', b'D')],
+        [(b'R', b'A'), (b'N',), (b'M', b'B', b'C'), (b'D', b'D')],
+        [(b'B',), (b'M', b'A', b'B'), (b'N',), (b'M', b'C', b'D'), (b'R', b'E')],
+        [(b'U', b'A'), (b'B',), (b'M', b'B', b'C'), (b'N',), (b'M+', b'D', b'E'), (b'L', b'F')],
     ]
     return [{'cmds': c} for c in cs]
 
